@@ -20,6 +20,7 @@ type Val struct {
 	Elems  []Val   // statically known elements (literal slices / varargs)
 	Box    *Val    // interface values: statically known dynamic value
 	Origin *Loc    // slices: location the value was loaded from (for in-place library ops such as sort)
+	Shared bool          // slices: cut from another slice (shares its backing array, possibly with spare capacity)
 	Fn     *ssa.Function // function values that are statically known
 	Binds  []Val         // closure bindings
 }
